@@ -256,7 +256,7 @@ func (e *Engine) activeRegions(st *State, label string) []Region {
 		if k.Fixed || !globMatch(k.Label, label) {
 			continue
 		}
-		if k.Harness != "" && k.Harness != e.cfg.Fn {
+		if k.Harness != "" && !globMatch(k.Harness, e.cfg.Fn) {
 			continue
 		}
 		if t, ok := st.regions[k.ID]; ok {
